@@ -123,7 +123,7 @@ fn k_read_data_block_compressed() {
 
 fn patch_block_roundtrip<const LEN: usize, const PADDED: usize>() {
     let data: [u8; LEN] = kani::any();
-    let mut buf = [0u8; 288];
+    let mut buf = [0u8; PADDED];
     {
         let mut w = Cursor::new(&mut buf[..]);
         write_data_block_patch(&mut w, data.to_vec());
@@ -144,7 +144,7 @@ fn patch_block_roundtrip<const LEN: usize, const PADDED: usize>() {
     kani::cover!(true, "reachable");
 }
 
-//@unit props=C03 label=S tier=quick fn=sqpack::{write_data_block_patch,read_data_block_patch} bound="payload of 2 bytes, all contents" stubs=fmt::format
+//@unit props=C03 label=S tier=thorough fn=sqpack::{write_data_block_patch,read_data_block_patch} bound="payload of 2 bytes, all contents" stubs=fmt::format
 //@desc writing a block and reading it back is the identity; the reader leaves the cursor at (len + 143) & !127 from the block start
 #[kani::proof]
 #[kani::unwind(8)]
